@@ -236,3 +236,213 @@ BAD_PROGRAMS = [
     'IF "a" THEN PRINT 1\n',                         # internal error (KeyError, D28)
     'PRINT 2 ^ -1\n',                                # internal error (AssertionError, D05)
 ]
+
+
+# --------------------------------------------------------------------------
+# variant families: programs that reuse the same user-visible names with
+# different definitions (material for compilation histories)
+
+INNERS = [
+    [('x', 'INTEGER')],
+    [('x', 'INTEGER'), ('y', 'LONG'), ('z', 'DOUBLE')],
+    [('w', 'STRING'), ('x', 'SINGLE')],
+]
+
+
+def _type_block(name, fields):
+    return [f'TYPE {name}'] + [f'  {f} AS {t}' for f, t in fields] + ['END TYPE']
+
+
+def nested_type_families():
+    """4 shapes of an outer TYPE whose field list never changes x 4 uses (global,
+    local of a SUB, array element, SUB parameter + local) x 3 inner TYPEs of
+    different sizes (1, 3, 2 cells)"""
+    shapes = [
+        ('flat', [('Outer', [('a', 'Inner'), ('n', 'INTEGER')])], 'a.x', 'n'),
+        ('mid', [('Outer', [('n', 'INTEGER'), ('a', 'Inner'), ('t', 'LONG')])], 'a.x', 't'),
+        ('twice', [('Outer', [('a', 'Inner'), ('b', 'Inner')])], 'a.x', 'b.x'),
+        ('deep', [('Mid', [('i', 'Inner'), ('k', 'LONG')]),
+                  ('Outer', [('m', 'Mid'), ('n', 'INTEGER')])], 'm.i.x', 'n'),
+    ]
+    fams = []
+    for sname, outers, p1, p2 in shapes:
+        for use in ('global', 'local', 'array', 'param'):
+            variants = []
+            for inner in INNERS:
+                ls = _type_block('Inner', inner)
+                for nm, fl in outers:
+                    ls += _type_block(nm, fl)
+                if use == 'global':
+                    ls += ['DIM o AS Outer', 'DIM k AS INTEGER', f'o.{p1} = 5', f'o.{p2} = 7', 'k = 9',
+                           f'PRINT o.{p1}; o.{p2}; k']
+                elif use == 'local':
+                    ls += ['DECLARE SUB work (q%)', 'work 3', 'work 4', 'SUB work (q%)', '  DIM o AS Outer',
+                           '  DIM k AS INTEGER', f'  o.{p1} = q%', f'  o.{p2} = 7', '  k = 9',
+                           f'  PRINT o.{p1}; o.{p2}; k; q%', 'END SUB']
+                elif use == 'array':
+                    ls += ['DIM arr(1 TO 3) AS Outer', 'DIM k AS INTEGER', f'arr(2).{p1} = 5', f'arr(3).{p2} = 7',
+                           'k = 9', f'PRINT arr(2).{p1}; arr(3).{p2}; arr(1).{p2}; k']
+                else:
+                    ls += ['DECLARE SUB work (p AS Outer, q%)', 'DIM SHARED g AS Outer', 'DIM o AS Outer',
+                           'DIM k AS INTEGER', f'o.{p1} = 5', f'g.{p2} = 6', 'k = 9', 'work o, k',
+                           'SUB work (p AS Outer, q%)', '  DIM l AS Outer', '  DIM j AS INTEGER', f'  l.{p2} = 2',
+                           '  j = 8', f'  PRINT p.{p1}; g.{p2}; l.{p2}; j; q%', 'END SUB']
+                variants.append('\n'.join(ls) + '\n')
+            fams.append({'tag': f'nested-{sname}-{use}', 'variants': variants})
+    return fams
+
+
+def name_reuse_families():
+    """same TYPE / CONST / SUB / FUNCTION / array / DEFtype-typed variable / label /
+    line number / DATA / literal / STATIC names, different definitions"""
+    F = []
+
+    def fam(tag, *variants):
+        F.append({'tag': tag, 'variants': [v if v.endswith('\n') else v + '\n' for v in variants]})
+    fam('type-fields',
+        'TYPE rec\n  n AS INTEGER\n  t AS STRING\nEND TYPE\nDIM r AS rec\nDIM k AS INTEGER\nr.n = 1\nr.t = "one"\nk = 2\nPRINT r.n; r.t; k',
+        'TYPE rec\n  t AS STRING\n  d AS DOUBLE\n  n AS INTEGER\nEND TYPE\nDIM r AS rec\nDIM k AS INTEGER\nr.n = 1\nr.t = "one"\nk = 2\nPRINT r.n; r.t; k',
+        'TYPE rec\n  n AS LONG\nEND TYPE\nDIM r AS rec\nDIM k AS INTEGER\nr.n = 100000\nk = 2\nPRINT r.n; k')
+    fam('type-in-sub',
+        'TYPE rec\n  n AS INTEGER\nEND TYPE\nDECLARE SUB work ()\nwork\nSUB work\n  DIM a AS rec\n  DIM b AS rec\n  a.n = 1\n  b.n = 2\n  PRINT a.n; b.n\nEND SUB',
+        'TYPE rec\n  m AS DOUBLE\n  n AS INTEGER\n  s AS STRING\nEND TYPE\nDECLARE SUB work ()\nwork\nSUB work\n  DIM a AS rec\n  DIM b AS rec\n  a.n = 1\n  b.n = 2\n  PRINT a.n; b.n\nEND SUB')
+    fam('const',
+        'CONST klen = 3\nCONST kmsg = "abc"\nDIM z(klen) AS INTEGER\nPRINT UBOUND(z); klen * 2; kmsg',
+        'CONST klen = 7\nCONST kmsg = "xyz"\nDIM z(klen) AS INTEGER\nPRINT UBOUND(z); klen * 2; kmsg',
+        'CONST klen = 5\nCONST kmsg = 2.5\nDIM z(klen) AS INTEGER\nPRINT UBOUND(z); klen * 2; kmsg',
+        'CONST kmsg = 4\nCONST klen = kmsg + 1\nDIM z(klen) AS INTEGER\nPRINT UBOUND(z); klen * 2; kmsg')
+    fam('sub-signature',
+        'DECLARE SUB work (a%, b$)\nwork 1, "x"\nSUB work (a%, b$)\n  PRINT a%; b$\nEND SUB',
+        'DECLARE SUB work (a#)\nwork 1.5\nSUB work (a#)\n  PRINT a#\nEND SUB',
+        'DECLARE SUB work ()\nwork\nSUB work\n  PRINT "none"\nEND SUB',
+        'DECLARE SUB work (b$, a%, c&)\nwork "x", 1, 70000\nSUB work (b$, a%, c&)\n  PRINT a%; b$; c&\nEND SUB')
+    fam('function-signature',
+        'DECLARE FUNCTION calc (x%)\nPRINT calc(2)\nFUNCTION calc (x%)\n  calc = x% + 1\nEND FUNCTION',
+        'DECLARE FUNCTION calc (x#, y#)\nPRINT calc(2, 3)\nFUNCTION calc (x#, y#)\n  calc = x# * y#\nEND FUNCTION',
+        'DECLARE FUNCTION calc$ (x$)\nPRINT calc$("q")\nFUNCTION calc$ (x$)\n  calc$ = x$ + x$\nEND FUNCTION',
+        'DECLARE FUNCTION calc& ()\nPRINT calc&\nFUNCTION calc&\n  calc& = 70000\nEND FUNCTION')
+    fam('name-kind',
+        'DIM item AS INTEGER\nitem = 4\nPRINT item',
+        'DIM item(4) AS INTEGER\nitem(2) = 4\nPRINT item(2)',
+        'DECLARE FUNCTION item (x%)\nPRINT item(2)\nFUNCTION item (x%)\n  item = x% * 2\nEND FUNCTION',
+        'DECLARE SUB item (x%)\nitem 2\nSUB item (x%)\n  PRINT x%\nEND SUB',
+        'GOTO item\nPRINT "skipped"\nitem:\nPRINT "label"',
+        'TYPE item\n  v AS LONG\nEND TYPE\nDIM i AS item\ni.v = 3\nPRINT i.v',
+        'CONST item = 11\nPRINT item')
+    fam('array-bounds',
+        'DIM grid(3) AS INTEGER\nDIM k AS INTEGER\ngrid(2) = 5\nk = 1\nPRINT grid(2); k; UBOUND(grid)',
+        'DIM grid(1 TO 4, 2) AS LONG\nDIM k AS INTEGER\ngrid(2, 1) = 5\nk = 1\nPRINT grid(2, 1); k; UBOUND(grid)',
+        'DIM SHARED grid(10) AS DOUBLE\nDIM k AS INTEGER\ngrid(2) = 5\nk = 1\nPRINT grid(2); k; UBOUND(grid)',
+        'DIM grid(2 TO 9) AS STRING\nDIM k AS INTEGER\ngrid(2) = "five"\nk = 1\nPRINT grid(2); k; UBOUND(grid)')
+    fam('deftype',
+        'DEFINT A-Z\nav = 3\nsv = 4\nzv = 5\nPRINT av / 2; sv; zv',
+        'DEFSTR S\nDEFDBL A-D\nav = 3\nsv = "4"\nzv = 5\nPRINT av / 2; sv; zv',
+        'DEFLNG Z\nDEFSTR A-B\nav = "3"\nsv = 4\nzv = 5\nPRINT av; sv / 3; zv',
+        'av = 3\nsv = 4\nzv = 5\nPRINT av / 2; sv; zv')
+    fam('labels',
+        'top:\nPRINT "a"\nGOTO fin\nmid:\nPRINT "b"\nfin:\nPRINT "c"',
+        'fin:\nPRINT "a"\nGOTO mid\ntop:\nPRINT "b"\nEND\nmid:\nPRINT "c"',
+        'GOSUB mid\nEND\nmid:\nPRINT "a"\nRETURN\ntop:\nfin:\nPRINT "never"')
+    fam('line-numbers',
+        '10 PRINT "a"\n20 GOTO 40\n30 PRINT "b"\n40 PRINT "c"',
+        '40 PRINT "a"\n30 GOTO 10\n20 PRINT "b"\n10 PRINT "c"',
+        '10 x = x + 1\n20 IF x < 3 THEN GOTO 10\n30 PRINT x\n40 END')
+    fam('data',
+        'first:\nDATA 1, two, "three x"\nsecond:\nDATA 4\nRESTORE second\nREAD a$\nPRINT a$',
+        'second:\nDATA 9, 8\nfirst:\nDATA seven\nRESTORE second\nREAD a$\nPRINT a$',
+        'DATA zero\nfirst:\nDATA 1\nsecond:\nDATA 5, , 6\nRESTORE first\nREAD a$\nPRINT a$')
+    fam('literals',
+        'PRINT "alpha"; "beta"\nPRINT "gamma"\nPRINT "alpha"\nINPUT "delta"; x\nPRINT "eps"',
+        'PRINT "eps"\nINPUT "delta"; x\nPRINT "gamma"; "beta"\nPRINT "alpha"\nPRINT "beta"',
+        'PRINT "gamma"\nPRINT "alpha"')
+    fam('static',
+        'DECLARE SUB work ()\nwork\nwork\nSUB work\n  STATIC n AS LONG\n  n = n + 1\n  PRINT n\nEND SUB',
+        'DECLARE SUB work ()\nwork\nwork\nSUB work\n  STATIC n(4) AS INTEGER\n  STATIC m AS INTEGER\n  m = m + 1\n  n(m) = m\n  PRINT n(1); m\nEND SUB',
+        'DECLARE SUB work ()\nDIM SHARED n AS DOUBLE\nwork\nwork\nSUB work\n  n = n + .5\n  PRINT n\nEND SUB')
+    return F
+
+
+def variant_families():
+    return nested_type_families() + name_reuse_families()
+
+
+# --------------------------------------------------------------------------
+# dead code x string literals: every shape of unreachable statement the
+# optimiser may touch, in programs with many string literals
+
+DEAD_TERMINATORS = ['END', 'SYSTEM', 'GOTO done', 'RETURN']
+DEAD_STMTS = [
+    lambda w: [f'PRINT "{w[0]}"'],
+    lambda w: [f'INPUT "{w[0]}"; dv'],
+    lambda w: [f'ds$ = "{w[0]}" + "{w[1]}"', 'PRINT ds$; 1'],
+    lambda w: [f'PRINT "{w[0]}"; "{w[1]}"', f'PRINT "{w[2]}"'],
+]
+DEAD_CONTEXTS = ['top', 'if', 'else', 'line-if', 'for', 'do', 'while', 'select', 'sub', 'function', 'gosub']
+
+
+def deadcode_program(ctxname, term, kind, nlit, i):
+    """nlit live literals before + some after a dead statement that directly
+    follows `term` in context `ctxname`; the condition guarding the terminator
+    is false at run time (x = 2), so the program runs to its end"""
+    rng = random.Random(5500 + i)
+    words = [w + str(k) for k in ('', '2') for w in WORDS]
+    rng.shuffle(words)
+    live, dead = words[:nlit + 3], words[nlit + 3:nlit + 6]
+    if i % 3 == 1:
+        dead[0] = live[0]                     # the dead literal also occurs in live code
+    pre = [f'PRINT "{w}"' for w in live[:nlit]]
+    if i % 2:
+        pre.insert(1, f'PRINT "{live[0]}"; "{live[1]}"')         # repeated literals
+    post = [f'PRINT "{w}"' for w in live[nlit:]]
+    t = term
+    if ctxname in ('sub', 'function') and term == 'GOTO done':
+        t = 'GOTO done2'
+    core = [t] + DEAD_STMTS[kind](dead)
+    ind = ['  ' + c for c in core]
+    tail = []
+    if ctxname == 'top':
+        body = ['IF x = 2 THEN GOTO over'] + core + ['over:']
+    elif ctxname == 'if':
+        body = ['IF x = 1 THEN', f'  PRINT "{live[-1]}"'] + ind + ['END IF']
+    elif ctxname == 'else':
+        body = ['IF x = 2 THEN', '  PRINT 0', 'ELSE'] + ind + ['END IF']
+    elif ctxname == 'line-if':
+        body = ['IF x = 1 THEN ' + ': '.join(core)]
+    elif ctxname == 'for':
+        body = ['FOR fi% = 1 TO 2', '  IF x = 2 THEN GOTO cont'] + ind + ['cont:', 'NEXT fi%']
+    elif ctxname == 'do':
+        body = ['DO', '  dn% = dn% + 1', '  IF x = 2 THEN GOTO cont'] + ind + ['cont:', 'LOOP UNTIL dn% >= 2']
+    elif ctxname == 'while':
+        body = ['WHILE wn% < 2', '  wn% = wn% + 1', '  IF x = 1 THEN'] + ['  ' + c for c in ind] + \
+               ['  END IF', 'WEND']
+    elif ctxname == 'select':
+        body = ['SELECT CASE x', 'CASE 1'] + ind + ['CASE 2', f'  PRINT "{live[-2]}"', 'CASE ELSE', '  PRINT 1',
+                                                    'END SELECT']
+    elif ctxname == 'sub':
+        body = ['work x']
+        tail = ['SUB work (p)', '  IF p = 2 THEN EXIT SUB'] + ind + ['done2:', f'  PRINT "{live[-1]}"', 'END SUB']
+    elif ctxname == 'function':
+        body = ['PRINT calc(x)']
+        tail = ['FUNCTION calc (p)', '  calc = p', '  IF p = 2 THEN EXIT FUNCTION'] + ind + \
+               ['done2:', f'  PRINT "{live[-1]}"', 'END FUNCTION']
+    else:   # gosub routine after the END of the main program
+        body = ['GOSUB rout']
+        tail = ['rout:', 'IF x = 2 THEN RETURN'] + core + ['PRINT 3', 'RETURN']
+    decl = ['DECLARE SUB work (p)'] if ctxname == 'sub' else \
+        ['DECLARE FUNCTION calc (p)'] if ctxname == 'function' else []
+    lines = decl + ['x = 2'] + pre + body + post + ['done:', f'PRINT "{live[2]}"', 'END'] + tail
+    return {'src': '\n'.join(lines) + '\n', 'tag': f'dead-{ctxname}-{term.split()[0].lower()}-s{kind}-n{nlit}'}
+
+
+def deadcode_programs(full):
+    """contexts x terminators (+ the EXIT forms where they exist) x dead statement
+    kinds; quick: the kind rotates with the index, two literal counts alternate"""
+    combos = [(c, t) for c in DEAD_CONTEXTS for t in DEAD_TERMINATORS]
+    combos += [('for', 'EXIT FOR'), ('do', 'EXIT DO'), ('sub', 'EXIT SUB'), ('function', 'EXIT FUNCTION')]
+    out = []
+    for i, (c, t) in enumerate(combos):
+        kinds = range(len(DEAD_STMTS)) if full else [i % len(DEAD_STMTS), (i + 1) % len(DEAD_STMTS)]
+        for kind in kinds:
+            for nlit in ((3, 9) if full else ((3, 9)[(i + kind) % 2],)):
+                out.append(deadcode_program(c, t, kind, nlit, i))
+    return out
